@@ -5,7 +5,7 @@ Open Scope Q_scope.
 
 Inductive cin :=
 | Conv (fn : nat) (src : option kind) (t : terms)        (* 0 pubo_to_puso 1 puso_to_pubo 2 qubo_to_quso 3 quso_to_qubo *)
-| Method (k : kind) (t : terms) (es : list edit) (mpx : option (list (label * nat))) (meth : nat)
+| Method (k : kind) (t : terms) (es : list edit) (mpx : option (list (label * nat))) (es2 : list edit) (meth : nat)
     (* object built from t, edited in place, optionally set_mapping / set_reverse_mapping, then 0 to_qubo 1 to_quso 2 to_pubo 3 to_puso *)
 | ConvSol (k : kind) (t : terms) (mpx : option (list (label * nat))) (sol : list (nat * Z)) (flag : bool)
 | ExportQ (lab : bool) (t : terms) | ExportH (lab : bool) (t : terms) | ExportJ (lab : bool) (t : terms)   (* lab: a labelled QUBO / QUSO object (the properties are inherited) *)
@@ -39,8 +39,9 @@ Definition run_case (c : cin) : cout :=
       out_model (with_src src t (match fn with
                                  | 0%nat => pubo_to_puso | 1%nat => puso_to_pubo
                                  | 2%nat => qubo_to_quso | _ => quso_to_qubo end))
-  | Method k t es mpx meth =>
-      out_model (bind (bind (m_create k t) (fun m0 => run_edits m0 es)) (fun m1 => let m := with_mp m1 mpx in
+  | Method k t es mpx es2 meth =>
+      (* edits, the user's numbering (if any), further edits (new variables take the next free integer), the conversion *)
+      out_model (bind (bind (bind (m_create k t) (fun m0 => run_edits m0 es)) (fun m1 => run_edits (with_mp m1 mpx) es2)) (fun m =>
         match k, meth with
         | KQubo, 0%nat => qubo_to_qubo m | KQubo, 1%nat => qubo_to_quso_m m
         | KQubo, 2%nat => qubo_to_pubo m | KQubo, _ => qubo_to_puso_m m
